@@ -12,11 +12,14 @@ RULE = ("SWEEP: for each of the %d coherent year x sub-part patterns the simulat
         "window (Dec 21 - Jan 10) of every year plus three seeded full years per pattern. REJECT: every calendar-year/ISO-week "
         "and ISO-year/non-ISO-week pairing must be refused by test, update and show, and the renderer is shown to run "
         "backwards for it. TESTCMD bump leg: backward/forward clock jumps, calendar parts never decrease. "
-        "distinct_nontrivial = distinct (pattern, day) pairs compared, plus distinct bump-leg classes." % len(COHERENT))
+        "distinct_nontrivial = distinct (pattern, day) pairs compared, plus distinct bump-leg classes."
+        " UNQUOTED: a TOML config whose current_version is a bare number (1.10, 2026.1100, 25.10): every command refuses, or behaves "
+        "as if it had read the text as written." % len(COHERENT))
 ASSUMPTIONS = ["reference order = vendored packaging.version + legacy key", "clock domain 2001..2099 as in the statement",
                "days on which WW/UU give week 53 cannot be rendered-and-read (known finding F8 of C02/C05); the sweep "
                "counts them (steered_week53) instead of reporting them here"]
-COMPONENTS = {"bumpver cli test/update/show": "real", "clock": "simulated (--date / version.TODAY)"}
+COMPONENTS = {"bumpver cli test/update/show": "real", "clock": "simulated (--date / version.TODAY)",
+              "config (UNQUOTED)": "real loader on a TOML current_version written as a bare number"}
 CAMPAIGNS = [SweepMonotone(), RejectIncoherent(), FutureBump(), TestCmd("C14", quick=6000, thorough=200000, sv_rate=0.0),
              Unquoted("C14", quick=300, thorough=6000)]
 
